@@ -15,6 +15,7 @@ import Driver.Archive
 import Driver.SseClient
 import Driver.Resource
 import Driver.SqliteConn
+import Driver.StateStore
 
 def main (args : List String) : IO UInt32 := do
   let stdin ← IO.getStdin
@@ -35,4 +36,5 @@ def main (args : List String) : IO UInt32 := do
   | ["sseclient"] => Drv.loop stdin Drv.SseClient.step (); return 0
   | ["resource"] => Drv.loop stdin Drv.Resource.step {}; return 0
   | ["sqliteconn"] => Drv.loop stdin Drv.SqliteConn.step {}; return 0
+  | ["statestore"] => Drv.loop stdin Drv.StateStore.step {}; return 0
   | _ => IO.eprintln "usage: wfdriver <model>"; return 2
